@@ -128,10 +128,13 @@ func scheduleProjects(c *core.Ctx, n, years int) []*gen.Project {
 			p.Irr = append(p.Irr, gen.IrrEv{Date: d, Mm: 1 + r.Intn(60), Ppm: []int{0, 0, 3, 25}[r.Intn(4)]})
 		}
 		nl := p.Soil.Horizons[len(p.Soil.Horizons)-1].LowerDm
-		for _, d := range append(append(pre(), mk(r.Intn(4), true, true)...), post()...) {
+		for ti, d := range append(append(pre(), mk(r.Intn(4)+i%2, true, true)...), post()...) {
 			cm := []int{5, 10, 15, 20, 25, 30, 40, 50}[r.Intn(8)]
 			for cm > nl*10-6 && cm > 5 {
 				cm -= 5
+			}
+			if (ti+i)%4 == 0 {
+				cm = 0 // a pass without mixing (working depth 0) is still an event of the schedule
 			}
 			p.Till = append(p.Till, gen.TillEv{Date: d, Cm: cm, Type: 1})
 		}
